@@ -5,4 +5,5 @@ PROPS = {
     "C41": ["c41_crc"],
     "C42": ["c42_timers"],
     "C43": ["c43_wrap"],
+    "C46": ["c46_pid"],
 }
